@@ -14,7 +14,7 @@
 From Coq Require Import List Arith.
 From PM Require Import Model.Data Model.Mark Model.Tree Model.Step Spec.Tokens
   Proofs.ReplaceValid Proofs.SliceSides Proofs.TokenBasics Proofs.ReplaceTokens Proofs.SliceShape Proofs.TokenLaws
-  Proofs.StepAlgebra.
+  Proofs.StepAlgebra Proofs.AroundTokens Proofs.AroundLaws.
 Import ListNotations.
 
 Theorem C11_result_valid : forall s from to sl structure doc d',
@@ -49,3 +49,16 @@ Theorem C11_delete_exact : forall s from to structure doc d',
   DT s d' = firstn from (DT s doc) ++ skipn to (DT s doc).
 Proof. exact delete_step_exact. Qed.
 Print Assumptions C11_delete_exact.
+
+(* the replace-around step the fitter emits when it moves the inline content after the range into the
+   slice: everything before `from` and after `to` is kept, the gap's tokens are kept between the two parts
+   of the slice *)
+Theorem C11_around_step_splice : forall s from to gf gt sl ins structure doc d',
+  check s doc = true ->
+  Shape s (sl_content sl) (sl_open_start sl) (sl_open_end sl) -> gf <= gt -> ins <= length (IT s sl) ->
+  apply s (SReplaceAround from to gf gt sl ins structure) doc = ROk d' ->
+  from <= length (DT s doc) /\ to <= length (DT s doc) /\
+  DT s d' = firstn from (DT s doc) ++ firstn ins (IT s sl) ++ seg (DT s doc) gf gt ++
+            skipn ins (IT s sl) ++ skipn to (DT s doc).
+Proof. exact replace_around_splice. Qed.
+Print Assumptions C11_around_step_splice.
